@@ -157,7 +157,10 @@ Definition step (c0 : cfg) (t : nat) : cfg :=
       match bin_at s (bini k) with
       | None => let '(s', a) := alloc s k v in
                 finish (with_sh c (set_bin s' (bini k) (Some a))) t (if no_repl then RInserted else RNone)
-      | Some _ => goto c t (PStart (if no_repl then OTryInsert k v else OInsert k v))
+      | Some h =>
+          (* the failed CAS reports the current head; the code goes on with it (no re-load) *)
+          if no_repl && (ckey (cell_at s h) =? k)%N then goto c t (PutFast k v h)
+          else goto c t (PutLock k v no_repl h)
       end
   | PutFast k v h => finish c t (RExists (cval (cell_at s h)))
   | PutLock k v no_repl h =>
